@@ -94,4 +94,37 @@ Proof.
   rewrite (parse_blocks _ Hl). rewrite !flat_map_app. simpl. now rewrite app_nil_r.
 Qed.
 
+(* skip-only formats (Fluent, PO, Android): nothing is appended, the staged text is
+   the unflagged blocks *)
+Theorem merge_blocks_skip_only : forall caps (bs : list blk) missing refs,
+  has caps can_copy = false -> has caps can_skip = true -> has caps can_merge = false ->
+  existsb flagged bs = true ->
+  merge keqb true caps (l10n_text bs) (block_skips 0 bs) missing refs =
+  Ok (Write (concat (kept_texts bs))).
+Proof.
+  intros caps bs missing refs Hc Hs Hm Hf.
+  destruct (block_skips_sorted bs 0) as [S F].
+  rewrite (merge_skip_only keqb) by assumption.
+  rewrite (has_not_none _ _ Hs), Hs. cbn [negb].
+  pose proof (block_skips_nonempty bs 0) as Hn. rewrite Hf in Hn.
+  destruct (block_skips 0 bs) as [|s0 rest] eqn:Ebs; [discriminate|].
+  rewrite <- Ebs in *. rewrite (sort_skips_sorted _ S F). cbn [bind].
+  do 2 f_equal. rewrite block_skips_spans. unfold l10n_text.
+  replace (map snd bs) with (map snd (flags bs)).
+  - apply remove_block_spans.
+  - unfold flags. rewrite map_map. reflexivity.
+Qed.
+
+Theorem reparse_blocks_skip_only : forall caps (bs : list blk) missing refs,
+  has caps can_copy = false -> has caps can_skip = true -> has caps can_merge = false ->
+  existsb flagged bs = true ->
+  legal (kept_texts bs) ->
+  exists t, merge keqb true caps (l10n_text bs) (block_skips 0 bs) missing refs = Ok (Write t) /\
+    parse t = flat_map entries (kept_texts bs).
+Proof.
+  intros caps bs missing refs Hc Hs Hm Hf Hl.
+  exists (concat (kept_texts bs)). split; [now apply merge_blocks_skip_only|].
+  now apply parse_blocks.
+Qed.
+
 End Blocks.
